@@ -266,7 +266,9 @@ class C14(core.Check):
                         'planted:value-does-not-fit-field': 3, 'pos:first': 3, 'pos:middle': 3, 'pos:last': 3,
                         'pos:zero-length@end': 2, 'pos:zero-length@start': 2, 'pos:zero-length@before-org-gap': 2,
                         'pos:zero-length@muted': 2, 'pos:zero-length@end-after-label': 2, 'outcome:success': 3,
-                        'outcome:failure': 3, 'output-in-missing-directory': 3, 'long-run:directed': 20, 'odd-spacing:directed': 10, 'corpus-example': 2, 'window-options': 3}
+                        'outcome:failure': 3, 'output-in-missing-directory': 3, 'long-run:directed': 20, 'odd-spacing:directed': 10, 'corpus-example': 2, 'window-options': 3,
+                        'planted:symbol-cycle': 3, 'symbol-cycle:use-before-it-closes': 3, 'symbol-cycle:first-from-cmdline': 3,
+                        'symbol-cycle:first-from-config': 3}
 
     def make(self, isa_files, isa_name, main, src, fmt, planted, tags, missing_dir=False, extra_argv=()):
         files = dict(isa_files)
@@ -334,6 +336,33 @@ class C14(core.Check):
             L = lines[:at] + [ins] + lines[at:]
             yield self.make({fn: itext}, fn, 'p.asm', '\n'.join(L) + '\n', None, None,
                             {'corruption:odd-spacing', 'fmt:None', 'odd-spacing:directed', 'pos:' + ['first', 'middle', 'last'][k % 3]})
+        # symbol definitions that close a cycle, in every definition order, with uses in between (each name is also a constant,
+        # so a use made before the cycle closes is fine): the use after the last definition is rejected - and terminates
+        import itertools
+        nm_ = ['SIZE_', 'LIMIT', 'QUOTA']
+        for L_ in (1, 2, 3):
+            for perm in itertools.permutations(range(L_)):
+                for use in range(L_):
+                    for src_kind in ('define', 'cmdline', 'config'):
+                        body = [f'{nm_[j_]} = {j_ + 4}' for j_ in range(L_)]
+                        extra, isa_c = [], isa
+                        for n_def, j_ in enumerate(perm):
+                            d_ = (nm_[j_], nm_[(j_ + 1) % L_])
+                            if n_def == 0 and src_kind == 'cmdline':
+                                extra = ['-D', f'{d_[0]}={d_[1]}']
+                            elif n_def == 0 and src_kind == 'config':
+                                isa_c = dict(isa, predefined=dict(isa.get('predefined') or {}, symbols=[{'name': d_[0], 'value': d_[1]}]))
+                            else:
+                                body.append(f'#define {d_[0]} {d_[1]}')
+                            body.append(f'.byte {nm_[use]}')
+                        fn_c, itext_c = isamod.render_isa(isa_c, 'json')
+                        at = [0, len(lines) // 2, len(lines)][(L_ + use) % 3]
+                        Lc = lines[:at] + body + lines[at:]
+                        c_ = self.make({fn_c: itext_c}, fn_c, 'p.asm', '\n'.join(Lc) + '\n', None, 'symbol-cycle',
+                                       {'corruption:symbol-cycle', 'fmt:None', 'planted:symbol-cycle', 'symbol-cycle:first-from-' + src_kind,
+                                        'symbol-cycle:use-before-it-closes' if L_ > 1 else 'symbol-cycle:length-1',
+                                        'pos:' + ['first', 'middle', 'last'][(L_ + use) % 3]}, extra_argv=extra)
+                        yield c_
         # corruptions of the repository's example programs (line-level, no AST needed)
         from vf import runner
         import sys
